@@ -447,8 +447,13 @@ def _case(rng, layout, texture, count, mode):
         unit = int([-30, -20, -10, 10, 20][rng.integers(5)])
         doms = [np.asarray(d, float) * 2.0 ** unit for d in doms]
     arrs, axes, stack_axis, conc = gen_arrays(rng, [len(d) for d in doms], mode)
+    big = False
+    if mode == "free" and axes is None and rng.integers(150) == 0:
+        # a large call: more than 2^20 interpolated values for one array (internal chunking / pre-allocated buffers)
+        arrs[0] = _vals(rng, (64, 64, 16, len(doms[0])))
+        big = True
     return {"domains": doms, "arrs": arrs, "axes": axes, "stack_axis": stack_axis, "concatenate": bool(conc),
-            "layout": layout, "texture": texture, "mode": mode, "unit_pow2": unit}
+            "layout": layout, "texture": texture, "mode": mode, "unit_pow2": unit, "big": big}
 
 
 def gen_main(rng, i):
@@ -488,6 +493,8 @@ def _cells(c, inp, domains, arrs, axes_n):
     c.cell("layout=" + inp["layout"], "texture=" + inp["texture"], "n_domains=%d" % len(domains))
     if inp.get("unit_pow2", 0):
         c.cell("domain-units=" + ("small" if inp["unit_pow2"] < 0 else "large"))
+    if inp.get("big"):
+        c.cell("large-call")
     axes = inp["axes"]
     c.cell("axes=None" if axes is None else "axes=int" if isinstance(axes, (int, np.integer)) else "axes=list")
     if axes is not None and np.any(np.asarray(axes) < 0):
